@@ -16,6 +16,42 @@ TEXTS = {
         "note": NOTE_COMMON + "Acyclic inputs only (the property's quantifier).",
         "technique": TECH,
     },
+    "C02": {
+        "text": "Theorems (Properties/C02.v): an observation that passes kind_ok links a term to an annotation id iff a record of that kind "
+                "has a direct term equal to the term or below it; record ids unique, direct lists duplicate-free and resolving; linked ids "
+                "resolve in the same kind. The check evaluates this on the real crate's observation for the three kinds separately, compares "
+                "the records with the facts the Builder script supplied, probes the three id maps for kind leakage, and diffs the Gallina "
+                "transcription of link_*_term/annotate_* (recursive early-exit propagation) against the crate.",
+        "design_ref": "DESIGN.md §4 C02", "note": NOTE_COMMON + "Acyclic inputs only.", "technique": TECH,
+    },
+    "C03": {
+        "text": "Theorems (Properties/C03.v): the documented formula over the reals is >= 0 for n <= N, antitone in n, 0 for n=0 or N=0 or n=N; "
+                "the f32 implementation's zero guard, u16 conversion guard and its exact shape (one binary32 division, logf, one multiplication). "
+                "The float evaluation is executed bit-exactly (Flocq) against the crate with the runtime's logf as an oracle table: the float "
+                "layer is partial (no theorem about logf).",
+        "design_ref": "DESIGN.md §4 C03, §2.6",
+        "note": NOTE_COMMON + "Axioms: the four standard-library axioms behind Coq Reals (sig_not_dec, sig_forall_dec, functional_extensionality_dep, classic). Flocq binary32 = Rust f32 arithmetic; logf sampled.",
+        "technique": TECH,
+    },
+    "C15": {
+        "text": "Theorems (Properties/C15.v): an observation passing ref_closed has no dangling id in any accessor; equal-observation test is "
+                "sound. The check runs every generated call history twice on the real Builder (with and without its failing calls), demands "
+                "identical read-API dumps, exact error codes (fails iff an absent term is named), a panic-free complete read-API walk, and "
+                "agreement with the Gallina Builder model.",
+        "design_ref": "DESIGN.md §4 C15", "note": NOTE_COMMON, "technique": TECH,
+    },
+    "C16": {
+        "text": "Theorem (Properties/C16.v): observations accepted by spec_C16 are pairwise identical. The check builds every fact set in three "
+                "independent random orders with the real Builder and with the model and demands identical canonical dumps.",
+        "design_ref": "DESIGN.md §4 C16", "note": NOTE_COMMON, "technique": TECH,
+    },
+    "C19": {
+        "text": "Theorems (Properties/C19.v, about the Gallina transcription): default modifier = children(HP:1) minus HP:118, default "
+                "categories = those plus children(HP:118), is_modifier / categories characterised by membership in {self} + ancestors, "
+                "categories ascending, build_with_defaults errs iff a root is missing; root ids regenerated from the source. Tied to the crate "
+                "by correspondence and by evaluating spec_C19 on the crate's observations.",
+        "design_ref": "DESIGN.md §4 C19", "note": NOTE_COMMON, "technique": TECH,
+    },
     "C12": {
         "text": "Unbounded theorems (Properties/C12.v, 12 statements, closed under the global context): every group operation "
                 "(insert, contains, |, &, +, | id, the four constructors) preserves strict ascending order and computes exactly the "
